@@ -93,6 +93,9 @@ def c_project(reg, pk, pp, kind="project_region"):
 def corpus():
     cs = [c_check((0, 1, 0, 1)), c_check((1, 1, 2, 2), "check-degenerate"), c_check((2, 1, 0, 1), "check-invalid"),
           c_check((0, 1, 3, 2), "check-invalid"), c_check((0, 1, 0), "check-invalid"), c_check((0, 1, 0, 1, 5), "check-invalid"),
+          # a region has exactly four values, whatever the others look like (a 3-D box, a single interval, two boxes)
+          c_check((0, 1), "check-invalid-length"), c_check((0, 1, 0, 1, -5, 5), "check-invalid-length"),
+          c_check((0, 1, 0, 1, 2, 3, 4, 5), "check-invalid-length"), c_check((3,), "check-invalid-length"),
           c_inside((0, 2, 0, 2), [0.0, 2.0, 1.0, 2.0, -0.5, 2.5], [0.0, 2.0, 1.0, 0.0, 1.0, 1.0], [6], "inside-boundary"),
           c_inside((2, 0, 0, 2), [1.0], [1.0], [1], "inside-invalid-region"),
           c_inside((0, 2, 0, 2), [1.0, float("nan"), 1.0, float("nan"), 3.0], [1.0, 1.0, float("nan"), float("nan"), float("nan")], [5], "inside-nan"),
@@ -158,7 +161,8 @@ def generate(rng, tier):
             elif k < 0.9:
                 cs.append(c_check((reg[0], reg[1], reg[3] + G.positive(rng), reg[2]), "check-invalid"))
             else:
-                cs.append(c_check(list(reg)[: rng.choice([0, 2, 3])] if rng.random() < 0.5 else list(reg) + [1.0], "check-invalid"))
+                cs.append(c_check(list(reg)[: rng.choice([0, 1, 2, 3])] if rng.random() < 0.4
+                                  else list(reg) + rng.choice([[1.0], [1.0, 2.0], [-1.0, 1.0, 2.0, 5.0], list(reg)]), "check-invalid-length"))
         elif u < 0.82:
             extra = None if rng.random() < 0.6 else [G.number(rng) for _ in range(rng.randint(1, 2))]
             if rng.random() < 0.15:
